@@ -132,3 +132,9 @@ def check(P, R, tier):
     R.assumptions = ["C17: n - q < q, so a maker cannot reach the threshold twice without the reset being undone",
                      "HashSet::insert returns false for a present element"]
     rules(P, R)
+    # G7 "matching VERIFIED votes (timeouts)": the verify functions themselves (C04.S2) - a timeout/vote whose signature is not
+    # checked on some path can be forged into a certificate
+    from ..common import fold
+    fold(R, P, "c04", ("C04.S2",), "C19.G7", 20)
+    # G2 "holding at least quorum stake": the threshold function itself and its >= users (C17)
+    fold(R, P, "c17", ("C17.O1", "C17.O2", "C17.O3", "C17.O5", "C17.O6"), "C19.G2", 10)
